@@ -35,7 +35,8 @@ def q(name, disc, nput, nget, maxlen, prod="producer", cons="consumer", role="pr
 def queries(tier, kf):
     n, ml = (2, 3) if tier == "quick" else (3, 3)
     ni = n
-    qs = [q("c05-free-%dx%d" % (n, n), 0, n, n, ml, timeout=7200),
+    qs = [gens.selftest_query("c05-ir2c-selftest"),
+          q("c05-free-%dx%d" % (n, n), 0, n, n, ml, timeout=7200),
           q("c05-producer-irq-%dx%d" % (ni, ni), 1, ni, ni, ml, timeout=7200),
           q("c05-consumer-irq-%dx%d" % (ni, ni), 2, ni, ni, ml, timeout=7200),
           ]
